@@ -10,7 +10,7 @@
 //! case {"id":..,"mode":"save","story":<story text>,"save":<save text>}
 //!   -> {"id","new":..,"load":..,"site","msg","reset":"ok"|..,"after":<transcript>,"fresh":<transcript>}
 //!   after the load attempt: reset_state + continue_maximally, compared by the caller with a fresh story.
-//! case {"id":..,"mode":"mksave","story":<story text>,"path":[i,..]}
+//! case {"id":..,"mode":"mksave","story":<story text>,"path":[i,..],"lines":n (optional, default 2)}
 //!   -> {"id","saves":[<save text at each stop>]}
 use std::{
     cell::RefCell,
@@ -226,6 +226,8 @@ fn run_case(case: &J) -> J {
             if let Some(mut st) = st {
                 let empty = Vec::new();
                 let path = case.get("path").and_then(|x| x.as_array()).unwrap_or(&empty).clone();
+                // optional "lines": a save is taken after each of the first N lines of every segment (default 2)
+                let lines = case.get("lines").and_then(|x| x.as_u64()).unwrap_or(2);
                 let _ = catch_unwind(AssertUnwindSafe(|| {
                     if let Ok(s) = st.save_state() {
                         saves.push(s);
@@ -239,7 +241,7 @@ fn run_case(case: &J) -> J {
                                 return;
                             }
                             n += 1;
-                            if n <= 2 && let Ok(s) = st.save_state() {
+                            if n <= lines && let Ok(s) = st.save_state() {
                                 saves.push(s);
                             }
                         }
